@@ -70,16 +70,15 @@ _CALL_RE = re.compile(r"\b([A-Za-z]\w*)\s*('?)\(")
 _STATIC_ARG = re.compile(r"\s*\d+\s*(?:(?:downto|to)\s+\d+\s*)?\)", re.I)
 
 
-def relied_predefined(ent: R.Entity, text):
-    """predefined identifiers the entity's text uses in their predefined role (trusted tokenisation):
-    type marks, call / conversion / qualified-expression positions, boolean literals, the library name of
-    a direct instantiation.  `p(static index or range)` with p declared as a vector / array object is a
+def scan_text(ent: R.Entity, text):
+    """-> (scoped, relied): every declared identifier with the lines (from, to] in which it is visible, and the
+    predefined identifiers the text uses in their predefined role with the line of each use (trusted
+    tokenisation; cross-checked against the reader's list of declared names, fail-closed).
+    predefined role = type mark, call / conversion / qualified-expression position, boolean literal, library
+    name of a direct instantiation.  `p(static index or range)` with p declared as a vector / array object is a
     reference to that object, not a call."""
-    relied = set()
-    objs = {}
-    for region, kind, name in ent.names:
-        if kind in ("sig", "var", "const"):
-            objs.setdefault(name.lower(), []).append((region, kind))
+    lines = text.split("\n")
+    n = len(lines)
     vec_objs = set()
     for d in list(ent.ports) + list(ent.signals):
         if d.ty.kind in ("vec", "arr"):
@@ -89,49 +88,89 @@ def relied_predefined(ent: R.Entity, text):
             for v in c.vars:
                 if v.ty.kind in ("vec", "arr"):
                     vec_objs.add(v.name.lower())
-    for raw in text.split("\n"):
+    scoped = []
+    relied = []
+    proc_open = []      # indices into scoped of the variables of the process being read
+    for i, raw in enumerate(lines, 1):
         line = raw.strip()
         if not line or line.startswith("--"):
             continue
         low = line.lower()
         if low.startswith(("library ", "use ")):
             continue
-        # type marks
-        m = re.match(r"(?:signal|variable|constant)\s+\w+\s*:\s*(\w+)", low)
-        if m:
-            relied.add(m.group(1))
-        m = re.match(r"\w+\s*:\s*(?:in|out|inout)\s+(\w+)", low)
-        if m:
-            relied.add(m.group(1))
-        m = re.match(r"type\s+\w+\s+is\s+array\s*\(.*\)\s+of\s+(\w+)", low)
-        if m:
-            relied.add(m.group(1))
-        m = re.match(r"function\s+\w+\s*\(\s*\w+\s*:\s*(\w+)\s*\)\s*return\s+(\w+)", low)
-        if m:
-            relied.add(m.group(1))
-            relied.add(m.group(2))
-        m = re.match(r"\w+\s*:\s*entity\s+(\w+)\.", low)
-        if m:
-            relied.add(m.group(1))
-        # declarations do not "use" the declared identifier
         body = low
-        m = re.match(r"(?:signal|variable|constant)\s+\w+\s*:\s*[^:]*(:=.*)?$", low)
+        tm = []
+        m = re.match(r"entity\s+(\w+)\s+is$", low)
         if m:
-            body = m.group(1) or ""
-        elif re.match(r"(\w+\s*:\s*(?:in|out|inout)\s)|(type\s)|(function\s)|(end\s)|(\w+\s*:\s*entity\s)|(entity\s)|"
-                      r"(architecture\s)", low):
+            scoped.append([line.split()[1], i, n])
             body = ""
+        m = re.match(r"architecture\s+(\w+)\s+of\s+\w+\s+is$", low)
+        if m:
+            scoped.append([line.split()[1], i, n])
+            body = ""
+        m = re.match(r"(signal|variable|constant)\s+(\w+)\s*:\s*(\w+)[^:]*(:=.*)?$", low)
+        if m:
+            name = re.match(r"\w+\s+(\w+)", line).group(1)
+            scoped.append([name, i, n])
+            if m.group(1) == "variable":
+                proc_open.append(len(scoped) - 1)
+            tm.append(m.group(3))
+            body = m.group(4) or ""
+        m = re.match(r"(\w+)\s*:\s*(?:in|out|inout)\s+(\w+)", low)
+        if m:
+            scoped.append([re.match(r"(\w+)", line).group(1), i, n])
+            tm.append(m.group(2))
+            body = ""
+        m = re.match(r"type\s+(\w+)\s+is\s+array\s*\(.*\)\s+of\s+(\w+)", low)
+        if m:
+            scoped.append([line.split()[1], i, n])
+            tm.append(m.group(2))
+            body = ""
+        else:
+            m = re.match(r"type\s+(\w+)\s+is\s*\((.*)\)\s*;", line, re.I)
+            if m:
+                scoped.append([m.group(1), i, n])
+                for lit in m.group(2).split(","):
+                    scoped.append([lit.strip(), i, n])
+                body = ""
+        m = re.match(r"function\s+(\w+)\s*\(\s*\w+\s*:\s*(\w+)\s*\)\s*return\s+(\w+)", low)
+        if m:
+            tm += [m.group(2), m.group(3)]
+            body = ""
+        if low.startswith("end "):
+            body = ""
+            if low == "end process;":
+                for k in proc_open:
+                    scoped[k][2] = i
+                proc_open = []
+        m = re.match(r"(\w+)\s*:\s*process\b", low)
+        if m:
+            scoped.append([re.match(r"(\w+)", line).group(1), i, n])
+            body = low[m.end():]
+        m = re.match(r"(\w+)\s*:\s*entity\s+(\w+)\.", low)
+        if m:
+            scoped.append([re.match(r"(\w+)", line).group(1), i, n])
+            tm.append(m.group(2))
+            body = ""
+        for t in tm:
+            if t in PREDEF:
+                relied.append((t, i))
         for mm in _CALL_RE.finditer(body):
             ident, tick = mm.group(1), mm.group(2)
             if ident not in PREDEF:
                 continue
             if not tick and ident in vec_objs and _STATIC_ARG.match(body, mm.end()):
                 continue
-            relied.add(ident)
+            relied.append((ident, i))
         for lit in PREDEF_LITS:
             if re.search(r"(?<![\w'])%s(?![\w(])" % lit, body):
-                relied.add(lit)
-    return sorted(relied & PREDEF)
+                relied.append((lit, i))
+    # fail-closed cross-check with the reader's view of the declared names
+    mine = sorted(x[0].lower() for x in scoped)
+    theirs = sorted(nm.lower() for _r, kind, nm in ent.names if kind != "function")
+    if mine != theirs:
+        raise R.Unparsed("declared-name scan disagrees with the reader: %s" % sorted(set(mine) ^ set(theirs))[:6])
+    return [(a, b, c) for a, b, c in scoped], sorted(set(relied))
 
 
 def stmt_names(ss, acc):
@@ -167,18 +206,25 @@ def coq_strs(xs):
 
 
 def names_term(ent: R.Entity, text):
-    arch = [n for region, kind, n in ent.names if region in ("entity", "arch") and kind != "architecture"]
+    fixed = [n for region, kind, n in ent.names if kind == "function"]
+    arch = [n for region, kind, n in ent.names
+            if region in ("entity", "arch") and kind not in ("architecture", "function", "enumlit")]
+    lits = [list(l) for _tn, _ty, l in ent.type_decls if l is not None]
     procs = []
     for c in ent.conc:
         if isinstance(c, R.Process):
             uses = set(x.lower() for x in c.sens)
             stmt_names(c.body, uses)
             procs.append(([v.name for v in c.vars], sorted(uses)))
-    relied = relied_predefined(ent, text)
-    term = ("{| en_entity := %s; en_archname := %s; en_arch := %s; en_procs := [%s]; en_relied := %s |}" % (
-        coq_str(ent.name), coq_str(ent.arch), coq_strs(arch),
-        "; ".join("(%s, %s)" % (coq_strs(v), coq_strs(u)) for v, u in procs), coq_strs(relied)))
-    return term, {"arch": arch, "procs": procs, "relied": relied}
+    scoped, relied = scan_text(ent, text)
+    term = ("{| en_entity := %s; en_archname := %s; en_fixed := %s; en_arch := %s; en_lits := [%s]; "
+            "en_procs := [%s]; en_scoped := [%s]; en_relied := [%s] |}" % (
+                coq_str(ent.name), coq_str(ent.arch), coq_strs(fixed), coq_strs(arch),
+                "; ".join(coq_strs(l) for l in lits),
+                "; ".join("(%s, %s)" % (coq_strs(v), coq_strs(u)) for v, u in procs),
+                "; ".join("(%s, (%d%%N, %d%%N))" % (coq_str(a), b, c) for a, b, c in scoped),
+                "; ".join("(%s, %d%%N)" % (coq_str(a), b) for a, b in relied)))
+    return term, {"fixed": fixed, "arch": arch, "lits": lits, "procs": procs, "scoped": scoped, "relied": relied}
 
 
 def entity_design(ent: R.Entity):
